@@ -4,7 +4,7 @@ import LekkerVerif.Core.HierPruneSpec
 
 `Solver.prune()` (sol.py) does not look at what a sub-solver exposes: it removes a component whose model has no pins
 (`Model.is_empty`) and a sub-solver whose own `prune()` returned `True`, that is one **all** of whose children went, all the
-way down.  `HNet.emptyRec` is that return value on the executable hierarchy.  Core/HierPrune.lean drops the children that
+way down.  `HNet.emptyRec` (Core/HierPrune.lean, core Lean only, so the driver runs it) is that return value on the executable hierarchy.  Core/HierPrune.lean drops the children that
 present no pin name to the level (`HNet.isDead`).  This file relates the two, for every well-formed hierarchy of any depth
 and branching:
 
@@ -19,25 +19,10 @@ open NetD Solve
 namespace HNet
 variable {F : Type}
 
-mutual
-/-- the return value of `Solver.prune()` / `Model.is_empty()`: nothing with a pin is left underneath -/
-def emptyRec : HNet F → Bool
-  | .leaf c => c.pins.isEmpty
-  | .node cs _ _ => emptyAll cs
-/-- `len(not_empty) == 0` -/
-def emptyAll : List (HNet F) → Bool
-  | [] => true
-  | h :: t => emptyRec h && emptyAll t
-end
-
 theorem emptyAll_iff (cs : List (HNet F)) : emptyAll cs = true ↔ ∀ h ∈ cs, emptyRec h = true := by
   induction cs with
   | nil => simp [emptyAll]
   | cons h t ih => simp [emptyAll, ih]
-
-/-- the positions of the children `prune()` keeps on a level -/
-def keepSet (cs : List (HNet F)) : List Nat :=
-  (List.range cs.length).filter fun i => !(cs.getD i (.node [] [] [])).emptyRec
 
 theorem mem_keepSet (cs : List (HNet F)) (i : Nat) : i ∈ keepSet cs ↔ ∃ h, cs[i]? = some h ∧ emptyRec h = false := by
   unfold keepSet
